@@ -120,3 +120,20 @@ def unchanged(l0: LT, l1: LT, l2: int, l3: int, n: int, b0: bool) -> bool:
     before = spines.build(SPINE, [l0, l1, l2, l3, l0, l1], n, [b0, True, True])
     list(ENV.query(MATCHQ, doc).select(*EXPRS, projection=STYLE))
     return ok(why(same_json(doc, before), "document modified by projection", MATCHQ, EXPRS, doc, before))
+
+
+def ancestor_first(l0: LT, l1: LT, l2: int, l3: int, n: int, b0: bool) -> bool:
+    """EXPRS = [ancestor, something inside it]: the ancestor is selected whole, so the projection equals the projection of
+    the ancestor alone (every selected node's value is found at its location), and the document is unchanged.
+
+    pre: 0 <= n <= MAXN
+    pre: small(l0, l1)
+    post: _
+    """
+    doc = spines.build(SPINE, [l0, l1, l2, l3, l0, l1], n, [b0, True, True])
+    before = spines.build(SPINE, [l0, l1, l2, l3, l0, l1], n, [b0, True, True])
+    both = list(ENV.query(MATCHQ, doc).select(*EXPRS, projection=STYLE))
+    alone = list(ENV.query(MATCHQ, doc).select(EXPRS[0], projection=STYLE))
+    if STYLE == Projection.FLAT:
+        return ok(same_json(doc, before))
+    return ok(why(same_json(both, alone), "a wholly selected container lost part of its value", EXPRS, both, alone) and same_json(doc, before))
